@@ -32,11 +32,8 @@ Pred(kind, d, len) ==
          bw |-> BlockWeight(d.txs)]
     ELSE [v |-> "accept", strict |-> TRUE, n |-> d.n]
 
-Case(cc) ==
-    LET s0 == Base(cc)
-        s  == Layout(cc)
-        d  == Decode(cc.sh.kind, s)
-    IN  [t |-> cc.sh.kind, sh |-> ShapeJ(cc.sh),
+CaseOf(cc, s0, s, d) ==
+        [t |-> cc.sh.kind, sh |-> ShapeJ(cc.sh),
          p |-> [k |-> cc.p.k, i |-> cc.p.i, a |-> cc.p.a, role |-> IF cc.p.i > 0 THEN s0[cc.p.i].role ELSE ""],
          s |-> [i \in 1..Len(s) |-> Tok(s[i])],
          e |-> Pred(cc.sh.kind, d, NBytes(s))]
@@ -49,8 +46,10 @@ GStep ==
     \/ /\ g = 0 /\ g' = 1
        /\ \E x \in Shapes : PartOf(x) = Part /\ c' = [sh |-> x, p |-> NoPert]
     \/ /\ g = 1 /\ g' = 2
-       /\ \E q \in Perts(c.sh.kind, Encode(c.sh)) : c' = [c EXCEPT !.p = q]
-Emit == PrintT(<<"VFT", ToJson(Case(c'))>>)
+       /\ \E s \in {Encode(c.sh)} : \E q \in Perts(c.sh.kind, s) : c' = [c EXCEPT !.p = q]
+\* (bound by quantifiers, not LET: see the note at Wire!TypeOK)
+Emit == \A s0 \in {Base(c')} : \A s \in {Apply(s0, c'.p)} : \A d \in {Decode(c'.sh.kind, s)} :
+            PrintT(<<"VFT", ToJson(CaseOf(c', s0, s, d))>>)
 GNext == GStep /\ Emit
 GSpec == GInit /\ [][GNext]_<<c, g>>
 =============================================================================
